@@ -4,14 +4,14 @@ use std::collections::BTreeMap;
 use std::io::Write;
 
 const COLS: &[&str] = &[
-    "*", "*", "a", "a", "b", "c", "(a|b)", "(b|a)", "(b|c)", "(|a)", "(b||c)", "(a)", "あ", "(あ|a)", "x", "y", "()", "(", "(|a)", "ab", "*a", "\u{3000}", "(\u{3000}|a)", "a\u{a0}",
+    "*", "*", "a", "a", "b", "c", "(a|b)", "(b|a)", "(b|c)", "(|a)", "(b||c)", "(a)", "あ", "(あ|a)", "x", "y", "()", "(", "(|a)", "ab", "*a", "\u{3000}", "(\u{3000}|a)", "a\u{a0}", "\"a\"", "\"", "\"a",
 ];
 // alternative lists whose first member starts with '(' or whose last member ends with ')'
 const PAREN_COLS: &[&str] = &["((|a)", "(a|))", "((|))", "(()", "())", "((|b|[)", "(]|a|))"];
 const OUTS: &[&str] = &[
     "$1", "$2", "$3", "$4", "$5", "R", "S", "*", "$", "$x", "$1x", "あ", "$10", "x$1", "$01", "\u{3000}", "$1\u{a0}",
 ];
-const FEATS: &[&str] = &["a", "a", "b", "b", "c", "あ", "x", "y", "", "", "ab", "*", "(", ")", "[", "]", "\u{3000}", "a\u{a0}"];
+const FEATS: &[&str] = &["a", "a", "b", "b", "c", "あ", "x", "y", "", "", "ab", "*", "(", ")", "[", "]", "\u{3000}", "a\u{a0}", "\"a\"", "\""];
 
 fn gen_rule(rng: &mut Rng, tag: usize, dirty: bool) -> String {
     // 1 rule in 14 copies the first k columns: all-'*' pattern, output $1..$k (it truncates longer
